@@ -18,7 +18,8 @@
 (***************************************************************************)
 EXTENDS Integers, Sequences, FiniteSets
 
-CONSTANTS W, H, Kind      \* Kind = "grid" (bilinear lattice raster) or "poly" (cubic polynomial raster)
+CONSTANTS W, H, Kind      \* Kind = "grid" (bilinear lattice raster), "poly" (cubic polynomial raster) or
+                          \* "ppoly" (polar rows sampled from a cubic that is constant along each pole; W divisible by 4)
 
 Wh == W \div 2
 Hh == (H - 1) \div 2
@@ -29,7 +30,16 @@ Poly(a, b) ==   \* integer cubic polynomial in centred coordinates
   30000 + a * a * a - 2 * a * a * b + 3 * a * b * b + 5 * b * b * b
         + 7 * a * a - 11 * a * b + 13 * b * b + 17 * a - 19 * b
 PixPoly(x, y) == Poly(x - Wh, y - Hh)
-Pix(x, y) == IF Kind = "grid" THEN PixGrid(x, y) ELSE PixPoly(x, y)
+\* "ppoly": the rows within 3 of a pole are sampled from PQ(u, d), a cubic WITHOUT pure-u terms (so it is constant along
+\* the pole d = 0), u = column within its half of the raster - W/4, d = signed row distance from the pole: positive in the
+\* half 0 <= x < W/2, negative in the other half, so that the documented reflection through the pole (half-turn shift)
+\* continues the same polynomial to d = -1.  The rows in between are constant.
+Wq == W \div 4
+PQ(u, d) == 30000 + 5 * d * d * d + 3 * u * d * d - 2 * u * u * d + 13 * d * d - 11 * u * d - 19 * d
+PixPPoly(x, y) ==
+  LET u == (x % Wh) - Wq   sg == IF x < Wh THEN 1 ELSE -1   ds == (H - 1) - y
+  IN IF y <= 3 THEN PQ(u, sg * y) ELSE IF ds <= 3 THEN PQ(u, sg * ds) ELSE 30000
+Pix(x, y) == IF Kind = "grid" THEN PixGrid(x, y) ELSE IF Kind = "ppoly" THEN PixPPoly(x, y) ELSE PixPoly(x, y)
 
 \* ---- documented raster access: longitude periodic, rows beyond a pole reflected through it ----
 RawVal(ix, iy) ==
@@ -56,6 +66,27 @@ P512(X8, Y8) ==
   LET a == (X8 % (8 * W)) - 8 * Wh   b == Y8 - 8 * Hh
   IN 512 * 30000 + a * a * a - 2 * a * a * b + 3 * a * b * b + 5 * b * b * b
      + 8 * (7 * a * a - 11 * a * b + 13 * b * b) + 64 * (17 * a - 19 * b)
+
+(* ------------------------------------------------------------------------ *)
+(* Cubic interpolation in the two polar cell rows (doc, "Interpolating the   *)
+(* geoid data"): a least-squares fit of a cubic to the 12-point stencil,     *)
+(* "constrained to be independent of longitude when evaluating the height at *)
+(* one of the poles".  The admissible cubics are therefore those without the *)
+(* terms u, u^2, u^3 (d measured from the pole); a least-squares fit over a  *)
+(* linear space reproduces every member of the space, so on the "ppoly"      *)
+(* raster the interpolated value is PQ itself wherever the whole stencil     *)
+(* (columns ix-1..ix+2, rows iy-1..iy+2 with the reflected row) lies in one  *)
+(* half of the raster.  PQ512 = 512 * PQ at a position in eighths.           *)
+(* ------------------------------------------------------------------------ *)
+PolarRow(Y8) == CellY(Y8) = 0 \/ CellY(Y8) = H - 2
+PolarInterior(X8, Y8) ==
+  LET cx == CellX(X8) % Wh IN PolarRow(Y8) /\ cx >= 1 /\ cx <= Wh - 3
+PQ512(X8, Y8) ==
+  LET xm == X8 % (8 * W)
+      a == (xm % (8 * Wh)) - 8 * Wq
+      sg == IF xm < 8 * Wh THEN 1 ELSE -1
+      b == sg * (IF CellY(Y8) = 0 THEN Y8 ELSE 8 * (H - 1) - Y8)
+  IN 512 * 30000 + 5 * b * b * b + 3 * a * b * b - 2 * a * a * b + 8 * (13 * b * b - 11 * a * b) - 64 * 19 * b
 
 (* ------------------------------------------------------------------------ *)
 (* Cache model (implementation-shaped): an area cache holds a copy of the   *)
